@@ -210,7 +210,12 @@ where
 
     fn poll_shutdown(mut self: Pin<&mut Self>, cx: &mut Context<'_>) -> Poll<io::Result<()>> {
         match self.state {
-            State::Handshake(_) => Poll::Ready(Ok(())),
+            // Nothing has been said over TLS yet, so there is nothing to close at that
+            // level, but the transport itself still has to be shut down.
+            State::Handshake(ref mut connect) => match connect.get_mut() {
+                Some(io) => Pin::new(io).poll_shutdown(cx),
+                None => Poll::Ready(Ok(())),
+            },
             State::Streaming(ref mut stream) => Pin::new(stream).poll_shutdown(cx),
         }
     }
